@@ -337,6 +337,10 @@ class Interp:
             if isinstance(fn, ast.Attribute) and isinstance(fn.value, ast.Name) and fn.value.id == 'self' \
                     and self.is_user_callable_field(name):
                 out |= frozenset({'ucall:' + name})
+            if isinstance(fn, ast.Name):
+                for t in st.env.get(fn.id, ()):
+                    if t.startswith('ufield:'):
+                        out |= frozenset({'ucall:' + t[7:]})
             return out
         if isinstance(n, ast.Subscript):
             return self.tags(st, n.value)
@@ -526,6 +530,10 @@ class Interp:
             self.add(st, Ev('UCALL', line, name, argtags, None, {'node': n}))
         elif recv_is_super:
             self.add(st, Ev('SUPERCALL', line, name, argtags, None, {'node': n}))
+        elif isinstance(f, ast.Name) and any(t.startswith('ufield:') for t in st.env.get(f.id, ())):
+            # a user callable called through a local alias:  fn = self.func ; fn(x)
+            fld = sorted(t[7:] for t in st.env.get(f.id, ()) if t.startswith('ufield:'))[0]
+            self.add(st, Ev('UCALL', line, fld, argtags, None, {'node': n}))
         else:
             self.add(st, Ev('CALL', line, src(f), argtags, name,
                             {'node': n, 'recv_tags': self.tags(st, recv) if recv is not None else frozenset()}))
@@ -540,6 +548,9 @@ class Interp:
 
     def assign(self, st, target, vtags, line, vnode=None, vshape=None):
         if isinstance(target, ast.Name):
+            if isinstance(vnode, ast.Attribute) and isinstance(vnode.value, ast.Name) and vnode.value.id == 'self' \
+                    and self.is_user_callable_field(vnode.attr) and not isinstance(vtags, type(None)):
+                vtags = frozenset(vtags) | frozenset({'ufield:' + vnode.attr})
             al = direct_field_alias(vnode) if vnode is not None else None
             if al is not None:
                 st.alias[target.id] = al
